@@ -20,6 +20,8 @@ pub enum C09Case {
     ValE2E { lens: Vec<u32> },
     /// end-to-end: key of this length between two sentinels
     KeyE2E { lens: Vec<u32> },
+    /// end-to-end on an aged store: thousands of freed large slots, then the sentinel sequence
+    ValE2EAged { lens: Vec<u32> },
 }
 
 /// offsets at both ends of every vu64 width, for the raw offset and for offset/8
@@ -109,6 +111,10 @@ fn cases(tier: Tier, seed: u64) -> Vec<C09Case> {
     }
     for ch in small.chunks(E2E_CHUNK) {
         c.push(C09Case::ValE2E { lens: ch.to_vec() });
+    }
+    // aged store: the requested slot is larger than all (or all but a buried one) of the freed slots
+    for ch in [1600u32, 2100, 3000, 4999, 5000, 5001, 5900, 6100, 9000].chunks(3) {
+        c.push(C09Case::ValE2EAged { lens: ch.to_vec() });
     }
     let mut kl = e2e_key_lengths(tier, seed);
     kl.sort_by(|a, b| b.cmp(a));
@@ -229,6 +235,11 @@ macro_rules! efail {
 }
 
 fn e2e_one(is_key: bool, len: u32, w: &WCtx) -> Result<(), Failure> {
+    e2e_one_v(is_key, len, false, w)
+}
+
+fn e2e_one_v(is_key: bool, len: u32, aged: bool, w: &WCtx) -> Result<(), Failure> {
+    crate::exec::tick();
     let ctx = w.ctx();
     let r = guarded(&ctx, || {
         let what = if is_key { "key" } else { "value" };
@@ -244,6 +255,28 @@ fn e2e_one(is_key: bool, len: u32, w: &WCtx) -> Result<(), Failure> {
         let db = abyssiniandb::open_file(&ctx.dir).map_err(|e| Failure::new("error", None, format!("open_file: {e}")))?;
         let mut m = open_map(&db, "s", Kt::Bytes, &params).map_err(|e| Failure::new("error", None, format!("open: {e}")))?;
         let io = |e: std::io::Error| Failure::new("error", None, format!("{what} length {len}: call returned Err: {e}"));
+        // aged store: 9000 entries of ~1.1-1.5 KB (+ one of 6000 bytes freed first), every second
+        // one deleted: thousands of slots on the shared large free list
+        let mut aged_live: Vec<(Vec<u8>, Vec<u8>)> = Vec::new();
+        if aged {
+            let kbig = format!("aged-big").into_bytes();
+            m.put(&kbig, &pattern_bytes(6000, 77)).map_err(io)?;
+            let mut all = Vec::new();
+            for i in 0..9000u32 {
+                let k = format!("aged-{i:05}").into_bytes();
+                let v = pattern_bytes(1100 + (i as usize % 4) * 128, i);
+                m.put(&k, &v).map_err(io)?;
+                all.push((k, v));
+            }
+            m.delete(&kbig).map_err(io)?;
+            for (i, (k, v)) in all.into_iter().enumerate() {
+                if i % 2 == 0 {
+                    m.delete(&k).map_err(io)?;
+                } else {
+                    aged_live.push((k, v));
+                }
+            }
+        }
         m.put(&ka, &va).map_err(io)?;
         m.put(&kx, &vx).map_err(io)?;
         m.put(&kb, &vb).map_err(io)?;
@@ -270,6 +303,17 @@ fn e2e_one(is_key: bool, len: u32, w: &WCtx) -> Result<(), Failure> {
                 if got.as_ref() != Some(v) {
                     efail!(
                         "{what} length {len} (variant {vi}): {n} reads back differently: got {:?} bytes, expected {}",
+                        got.map(|g| g.len()),
+                        v.len()
+                    );
+                }
+            }
+            for (k, v) in aged_live.iter() {
+                let got = m.get(k).map_err(io)?;
+                if got.as_ref() != Some(v) {
+                    efail!(
+                        "{what} length {len} (variant {vi}): the unrelated entry {} was altered by writing the middle entry (got {:?} bytes, expected {})",
+                        String::from_utf8_lossy(k),
                         got.map(|g| g.len()),
                         v.len()
                     );
@@ -337,11 +381,12 @@ fn run_c09(c: &C09Case, w: &WCtx) -> Result<(Report, u64, Vec<u64>), Failure> {
             let (n, nt) = res.unwrap();
             Ok((r, n, nt))
         }
-        C09Case::ValE2E { lens } | C09Case::KeyE2E { lens } => {
+        C09Case::ValE2E { lens } | C09Case::KeyE2E { lens } | C09Case::ValE2EAged { lens } => {
             let is_key = matches!(c, C09Case::KeyE2E { .. });
+            let aged = matches!(c, C09Case::ValE2EAged { .. });
             let mut nt = Vec::new();
             for &l in lens {
-                e2e_one(is_key, l, w).map_err(|mut f| {
+                e2e_one_v(is_key, l, aged, w).map_err(|mut f| {
                     f.msg = format!("[end-to-end {} length {l}] {}", if is_key { "key" } else { "value" }, f.msg);
                     f
                 })?;
@@ -377,7 +422,7 @@ impl Prop for C09 {
         "C09"
     }
     fn rule(&self) -> String {
-        "(a) arithmetic, exhaustive, no I/O, through the layout-probe hook that calls the crate's own encoded_piece_size + roundup: every value length 0..=2^24+2^16 and every key length 0..=2^16 x every pair of 24 offset representatives (both ends of each vu64 width for the raw offset and for offset/8); oracle: independently computed record length (size field of the chosen slot + length field + payload [+ offset fields]) <= slot, slot a legal size class. (b) end to end: for every length 0..=4200, +-3 around 4 KiB*j (j<=8), around 128 KiB, 1 MiB and 16 MiB (values) / up to 64 KiB (keys) [thorough: + 24000 random lengths]: sentinel A, the entry, sentinel B in three different buckets, then the entry's value overwritten one byte shorter, one byte longer and back (keys: value rewritten with other lengths); oracle: all three read back byte for byte, the independent decoder finds the record inside its slot with exactly the bytes put, structure and tiling clean, and the raw bytes of both sentinels' value slots never change. evaluations = swept lengths/combinations + end-to-end lengths. Non-trivial: a length L whose slot differs from that of L+1 (distinct by L)."
+        "(a) arithmetic, exhaustive, no I/O, through the layout-probe hook that calls the crate's own encoded_piece_size + roundup: every value length 0..=2^24+2^16 and every key length 0..=2^16 x every pair of 24 offset representatives (both ends of each vu64 width for the raw offset and for offset/8); oracle: independently computed record length (size field of the chosen slot + length field + payload [+ offset fields]) <= slot, slot a legal size class. (b) end to end: for every length 0..=4200, +-3 around 4 KiB*j (j<=8), around 128 KiB, 1 MiB and 16 MiB (values) / up to 64 KiB (keys) [thorough: + 24000 random lengths]: sentinel A, the entry, sentinel B in three different buckets, then the entry's value overwritten one byte shorter, one byte longer and back (keys: value rewritten with other lengths); nine lengths are also stored on an AGED store (9000 entries of 1.1-1.5 KB, every second one deleted: thousands of freed large slots) where all surviving entries are re-read after every write; oracle: all three read back byte for byte, the independent decoder finds the record inside its slot with exactly the bytes put, structure and tiling clean, and the raw bytes of both sentinels' value slots never change. evaluations = swept lengths/combinations + end-to-end lengths. Non-trivial: a length L whose slot differs from that of L+1 (distinct by L)."
             .to_string()
     }
     fn assumptions(&self) -> Vec<String> {
@@ -405,7 +450,7 @@ impl Prop for C09 {
                 out.evals = n;
                 out.nontrivial = nt;
                 out.labels = rep.labels;
-                if matches!(c, C09Case::ValE2E { .. } | C09Case::KeyE2E { .. }) && out.index % 40 == 35 {
+                if matches!(c, C09Case::ValE2E { .. } | C09Case::KeyE2E { .. } | C09Case::ValE2EAged { .. }) && out.index % 40 == 35 {
                     out.sample = Some(serde_json::to_value(c).unwrap());
                 }
                 if matches!(c, C09Case::ValSweep { .. } | C09Case::KeySweep { .. }) && (index == 0 || index == SWEEP_CHUNKS) {
@@ -420,6 +465,7 @@ impl Prop for C09 {
                     case = match c {
                         C09Case::ValE2E { .. } => serde_json::to_value(C09Case::ValE2E { lens: vec![l] }).unwrap(),
                         C09Case::KeyE2E { .. } => serde_json::to_value(C09Case::KeyE2E { lens: vec![l] }).unwrap(),
+                        C09Case::ValE2EAged { .. } => serde_json::to_value(C09Case::ValE2EAged { lens: vec![l] }).unwrap(),
                         _ => case,
                     };
                 }
